@@ -14,9 +14,9 @@ use crate::gad::*;
 use crate::sch::*;
 use poulpy_core::{
     EncryptionLayout, GGLWEKeyswitch, GLWEAutomorphism, GLWEAutomorphismKeyAutomorphism, GLWEAutomorphismKeyEncryptSk, GLWEFromLWE, GLWEKeyswitch, GLWESwitchingKeyEncryptSk,
-    GLWEToLWESwitchingKeyEncryptSk, GLWETrace, LWEFromGLWE, LWEKeySwitch, LWESampleExtract, LWESwitchingKeyEncrypt, LWEToGLWESwitchingKeyEncryptSk,
+    GLWEPacker, GLWEPacking, GLWEToLWESwitchingKeyEncryptSk, GLWETrace, LWEFromGLWE, LWEKeySwitch, LWESampleExtract, LWESwitchingKeyEncrypt, LWEToGLWESwitchingKeyEncryptSk, glwe_packer_add, glwe_packer_flush,
     layouts::{
-        Base2K, Degree, Dnum, Dsize, GGLWE, GGLWEInfos, GGLWEToRef, GLWE, GLWEAutomorphismKey, GLWEAutomorphismKeyLayout, GLWEAutomorphismKeyPreparedFactory, GLWESecret,
+        Base2K, Degree, Dnum, Dsize, GGLWE, GGLWEInfos, GGLWEToRef, GLWE, GLWEAutomorphismKey, GLWEAutomorphismKeyLayout, GLWEAutomorphismKeyPreparedFactory, GLWELayout, GLWESecret,
         GLWESecretPreparedFactory, GLWESwitchingKey, GLWESwitchingKeyLayout, GLWESwitchingKeyPreparedFactory, GLWEToLWEKey, GLWEToLWEKeyLayout, GLWEToLWEKeyPreparedFactory,
         LWE, LWESecret, LWESwitchingKey, LWESwitchingKeyLayout, LWESwitchingKeyPreparedFactory, LWEToGLWEKey, LWEToGLWEKeyLayout, LWEToGLWEKeyPreparedFactory,
         Rank, TorusPrecision,
@@ -785,6 +785,157 @@ fn run_kk<B: FullBackend>(m: &Module<B>, c: &Case) -> Verdict {
     Verdict::pass(nt && q.rem_euclid(two_n) != 1, &cl)
 }
 
+
+// ------------------------------------------------------------------------------------------
+// 6. glwe_pack (subset of slots, output gap) and the streaming GLWEPacker (bit-reversed order, batches)
+
+/// accumulated bound of `glwe_trace(res, skip, a)` for working bits max(a, res) in the key radix
+fn trace_bound(c: &Case, metas: &HashMap<i64, KeyMeta>, gals: &[i64], al: Lay, rl: Lay, skip: usize, assign: bool, n: usize, s: &[Vec<i64>]) -> f64 {
+    let kb = c.kb as usize;
+    let wbits = if assign { al.bits() } else { al.bits().max(rl.bits()) };
+    let wl = if assign && al.b == kb { al } else { Lay { b: kb, size: wbits.div_ceil(kb) } };
+    let so = 1.0 + l1_sum(s) as f64;
+    let mut bound = 0f64;
+    for i in skip..c.log_n as usize {
+        bound += wl.unit() * so;
+        bound += ks_bound(&metas[&gals[i]], wl, wl, n, &l1s(s), l1_sum(s));
+    }
+    bound + (wl.unit() + rl.unit()) * so * 2.0
+}
+
+fn bitrev(x: usize, bits: usize) -> usize {
+    if bits == 0 { 0 } else { x.reverse_bits() >> (usize::BITS as usize - bits) }
+}
+
+fn run_pack<B: FullBackend>(m: &Module<B>, c: &Case) -> Verdict {
+    let n = m.n();
+    let log_n = c.log_n as usize;
+    let mut scratch = ScratchOwned::<B>::alloc(SCRATCH);
+    let streaming = c.op % 2 == 1;
+    let opn = if streaming { "glwe_packer" } else { "glwe_pack" };
+    let r = c.rank_out as usize;
+    let sk = secret(n, r, c.dist, c.seed, 1);
+    let s = glwe_secret_coeffs(&sk);
+    let so = 1.0 + l1_sum(&s) as f64;
+    let gals = m.glwe_pack_galois_elements();
+    let mut keys: HashMap<i64, AtkP<B>> = HashMap::new();
+    let mut metas: HashMap<i64, KeyMeta> = HashMap::new();
+    for (i, g) in gals.iter().enumerate() {
+        match build_atk(m, c, *g, &sk, i as u64 + 1, &mut scratch) {
+            Ok((k, me, _)) => {
+                keys.insert(*g, k);
+                metas.insert(*g, me);
+            }
+            Err(e) => return fail(c, "glwe_automorphism_key_encrypt_sk", "key-cell-wrong", e),
+        }
+    }
+    let (al, rl) = (c.a_lay(), c.r_lay());
+    let mut rng = SplitMix::new(c.seed ^ 0x9ACC);
+    let density = [1u64, 2, 4, 64][(c.skip as usize / 8) % 4]; // 1 = every slot, 64 = almost none
+    let mut cl: Vec<&'static str> = vec![];
+    let (got, want, bound): (Vec<Dyadic>, Vec<Dyadic>, f64) = if !streaming {
+        let gap = (c.skip as usize) % (log_n + 1);
+        let step = 1usize << gap;
+        let mut idxs: Vec<usize> = (0..n).step_by(step).filter(|_| rng.next() % density == 0).collect();
+        if idxs.is_empty() {
+            idxs.push(((rng.next() as usize) % (n / step)) * step);
+        }
+        let mut cts: Vec<GLWE<Vec<u8>>> = idxs
+            .iter()
+            .map(|i| {
+                let mut ct = glwe(n, al, r);
+                arbitrary_glwe(&mut ct, c.cls, c.seed ^ (*i as u64 + 1) * 0x1234567);
+                ct
+            })
+            .collect();
+        let mut want: Vec<Dyadic> = (0..n).map(|_| Dyadic::zero()).collect();
+        for (ct, i) in cts.iter().zip(idxs.iter()) {
+            want[*i] = phase_vals(ct.data(), &s, al.b)[0].clone();
+        }
+        let mut map: HashMap<usize, &mut GLWE<Vec<u8>>> = HashMap::new();
+        for (ct, i) in cts.iter_mut().zip(idxs.iter()) {
+            map.insert(*i, ct);
+        }
+        let mut res = glwe(n, rl, r);
+        arbitrary_glwe(&mut res, VClass::Uniform, c.seed ^ 0xB);
+        m.glwe_pack(&mut res, map, gap, &keys, scratch.borrow());
+        let mut bound = 0f64;
+        for i in 0..(log_n - gap) {
+            bound += 2.0 * al.unit() * so + ks_bound(&metas[&gals[i]], al, al, n, &l1s(&s), l1_sum(&s));
+        }
+        bound += trace_bound(c, &metas, &gals, al, rl, log_n - gap, false, n, &s);
+        cl.push(if gap == 0 { "gap=0" } else if gap == log_n { "gap=log_n(single slot)" } else { "gap>0" });
+        cl.push(if idxs.len() == n / step { "all_slots" } else if idxs.len() == 1 { "single_input" } else { "subset_of_slots" });
+        (phase_vals(res.data(), &s, rl.b), want, bound)
+    } else {
+        let lb = (c.skip as usize) % log_n.min(3);
+        let levels = log_n - lb;
+        let count = n >> lb;
+        let acc_infos = GLWELayout { n: Degree(n as u32), base2k: Base2K(rl.b as u32), k: TorusPrecision((rl.size * rl.b) as u32), rank: Rank(r as u32) };
+        let mut packer = GLWEPacker::alloc(&acc_infos, lb);
+        let mut want: Vec<Dyadic> = (0..n).map(|_| Dyadic::zero()).collect();
+        let mut present = 0usize;
+        for i in 0..count {
+            if rng.next() % density == 0 || (i + 1 == count && present == 0) {
+                present += 1;
+                let mut ct = glwe(n, al, r);
+                arbitrary_glwe(&mut ct, c.cls, c.seed ^ (i as u64 + 1) * 0x1234567);
+                let ph = phase_vals(ct.data(), &s, al.b);
+                // the batch of 2^lb values at multiples of 2^levels moves to offset bitrev(i)
+                for mm in 0..(1usize << lb) {
+                    want[(mm << levels) + bitrev(i, levels)] = ph[mm << levels].clone();
+                }
+                glwe_packer_add(m, &mut packer, Some(&ct), &keys, scratch.borrow());
+            } else {
+                glwe_packer_add(m, &mut packer, None::<&GLWE<Vec<u8>>>, &keys, scratch.borrow());
+            }
+        }
+        let ol = Lay { b: if c.radix_mode & 4 != 0 { al.b } else { rl.b }, size: al.size.min(12) };
+        let mut res = glwe(n, ol, r);
+        arbitrary_glwe(&mut res, VClass::Uniform, c.seed ^ 0xB);
+        glwe_packer_flush(m, &mut packer, &mut res, scratch.borrow());
+        let mut bound = (rl.unit() + ol.unit()) * so * 2.0;
+        for i in lb..log_n {
+            bound += 2.0 * rl.unit() * so + ks_bound(&metas[&gals[i]], rl, rl, n, &l1s(&s), l1_sum(&s));
+        }
+        cl.push(if lb == 0 { "log_batch=0" } else { "log_batch>0" });
+        cl.push(if present == count { "all_slots" } else if present == 1 { "single_input" } else { "subset_of_slots" });
+        (phase_vals(res.data(), &s, ol.b), want, bound)
+    };
+    let (e, i) = max_err(&got, &want);
+    if e > bound {
+        return fail(c, opn, "phase-error-above-gadget-bound", format!("coefficient {i}: |phase(res) - expected packed slot| = {e:.4e} exceeds the accumulated bound {bound:.4e} (N={n}, key {}x{} limbs of {} bits, inputs {:?}, accumulator/result {:?})", c.dnum, c.dsize, c.kb, al, rl));
+    }
+    let (nt, mut cl2) = classes(c, bound, log_n, e);
+    cl2.extend(cl);
+    cl2.push(opn);
+    Verdict::pass(nt, &cl2)
+}
+
+pub fn test_pack(c0: &Case) -> Verdict {
+    let mut c = c0.clone();
+    c.log_n = c.log_n.min(5);
+    adapt(&mut c);
+    c.rank_in = c.rank_out;
+    let streaming = c.op % 2 == 1;
+    if streaming && c.ab != c.rb && c.radix_mode & 4 == 0 {
+        // inputs in the accumulator radix (the documented use); the mixed-radix form is kept at a low rate below
+        c.ab = c.rb;
+    }
+    if streaming && c.ab != c.rb {
+        // The packer converts a foreign-radix input only when it lands in an empty accumulator; an input that
+        // is combined with an occupied / flag-only accumulator is used without conversion (recorded finding).
+        // Everything that goes wrong in this configuration is reported under one signature.
+        let r = pzv_common::driver::guarded(|| with_backend!(c.be, c.log_n, |m| run_pack(m, &c)));
+        return match r {
+            Ok(Verdict::Fail { detail, .. }) => Verdict::fail("glwe_packer|input-radix-differs-from-accumulator|wrong-result", detail),
+            Ok(v) => v,
+            Err(p) => Verdict::fail("glwe_packer|input-radix-differs-from-accumulator|panic", format!("panic: {p}\ncase={c:?}")),
+        };
+    }
+    with_backend!(c.be, c.log_n, |m| run_pack(m, &c))
+}
+
 pub fn test_lwe(c0: &Case) -> Verdict {
     let mut c = c0.clone();
     adapt(&mut c);
@@ -852,7 +1003,7 @@ pub fn cls_strategy() -> impl Strategy<Value = VClass> {
 pub fn strategy() -> BoxedStrategy<Case> {
     (
         (crate::c01::be_strategy(), any::<u8>(), 3u8..=7, 2u8..=40, 1u8..=4, 1u8..=4, 0u8..3, any::<u8>(), 0u8..3),
-        (2u8..=40, -2i8..=2, 2u8..=40, 1u8..=12, 0u8..4, 1u8..=3, 1u8..=3),
+        (2u8..=40, -2i8..=2, 2u8..=40, 1u8..=12, 0u8..8, 1u8..=3, 1u8..=3),
         (dist_strategy(), cls_strategy(), any::<i64>(), any::<u8>(), 1u16..=128, 1u16..=128, any::<u16>(), any::<u64>()),
     )
         .prop_map(|((be, op, log_n, kb, dnum, dsize, extra, krem, noise), (ab, adelta, rb, rsize, radix_mode, rank_in, rank_out), (dist, cls, gal, skip, n_lwe, n_lwe2, idx, seed))| {
@@ -870,6 +1021,7 @@ pub fn run_all(ctx: &Ctx) {
     ctx.run_sub("glwe_trace", t.pick(1_000, 20_000), 64, strategy, test_trace);
     ctx.run_sub("lwe_conversions", t.pick(3_000, 60_000), 64, strategy, test_lwe);
     ctx.run_sub("key_on_key", t.pick(2_000, 40_000), 64, strategy, test_kk);
+    ctx.run_sub("packing", t.pick(800, 16_000), 64, strategy, test_pack);
 }
 
 pub fn replay(ctx: &Ctx, sub: &str, case: &serde_json::Value) -> i32 {
@@ -879,6 +1031,7 @@ pub fn replay(ctx: &Ctx, sub: &str, case: &serde_json::Value) -> i32 {
         "glwe_trace" => ctx.replay_case::<Case, _>(sub, case, test_trace),
         "lwe_conversions" => ctx.replay_case::<Case, _>(sub, case, test_lwe),
         "key_on_key" => ctx.replay_case::<Case, _>(sub, case, test_kk),
+        "packing" => ctx.replay_case::<Case, _>(sub, case, test_pack),
         _ => 2,
     }
 }
